@@ -65,6 +65,8 @@ class GaussianSimpleParameterConstraint(ParameterConstraint):
         """
         self._index = index
         self._value = value
+        if not uncertainty > 0:
+            raise ValueError("The uncertainty of a parameter constraint must be greater than zero, got %r!" % (uncertainty,))
         if relative:
             self._uncertainty_abs = None
             self._uncertainty_rel = uncertainty
@@ -187,6 +189,10 @@ class GaussianMatrixParameterConstraint(ParameterConstraint):
             self._cor_mat = _matrix_array
             if uncertainties is None:
                 raise ValueError("If matrix_type is cor uncertainties must be specified!")
+            if np.shape(uncertainties) != (len(self._values),):
+                raise ValueError("Expected %s uncertainties for %s values but received shape %s!" % (len(self._values), len(self._values), np.shape(uncertainties)))
+            if not np.all(np.asarray(uncertainties) > 0):
+                raise ValueError("The uncertainties of a parameter constraint must be greater than zero!")
             if relative:
                 self._uncertainties_abs = None
                 self._uncertainties_rel = np.array(uncertainties)
